@@ -495,3 +495,6 @@ B('C06.record-version-clamped', ['C06', 'C01'], [(P + 'tls/record.py', "        
   "        composer.compose_parsable(min(self.protocol_version, TlsProtocolVersion(TlsVersion.TLS1_2)))\n")], mention=['C06.R10', 'protocol_version'])
 # a local-time function handed on as a converter; astimezone of a value that may have no zone
 B('C11.fromtimestamp-as-converter', ['C11', 'C05'], [(P + 'tls/subprotocol.py', "datetime.datetime.utcfromtimestamp)", "datetime.datetime.fromtimestamp)")], mention=['fromtimestamp'])
+# the encoder of the key object gives up with OverflowError for a coordinate that is a power of 256
+B('C02.ecdsa-overflow-escapes', ['C02'], [(P + 'ssh/key.py', "        except (ValueError, OverflowError) as e:  # a coordinate the encoder of the key object cannot take\n",
+  "        except ValueError as e:\n")], mention=['OverflowError'])
